@@ -108,6 +108,14 @@ func runC05(c *mon.Ctx) {
 		c05Run(c, cs, base)
 	}
 
+	// A LICENSE below the root is an ordinary file: the per-file limit is for the root LICENSE only.
+	if id := "big-license-in-subdirectory"; c.Mine(9) && c.Want(id) {
+		sz := int64(refzip.MaxGoMod) + 1
+		cs := &c05Case{id: id, family: "big", theme: "limit-does-not-apply-below-root", mod: gen.ZModule{Path: "example.com/m", Version: "v1.0.0", Intent: "plain"},
+			files: []*gen.ZFile{{P: "third_party/dep/LICENSE", M: 0o644, Sz: sz, Zeros: sz}, {P: "LICENSE", M: 0o644, Sz: 3, Data: []byte("MIT")}, {P: "a.go", M: 0o644, Sz: 3, Data: []byte("abc")}}}
+		c05Run(c, cs, base)
+	}
+
 	// A go.mod / LICENSE that grows past the per-file limit after the file check has looked at it: the first
 	// Lstat reports a small size, later ones (and the content) the size over the limit. Creation may fail;
 	// if it succeeds the archive is judged like any other (it must pass the zip check).
